@@ -1609,4 +1609,122 @@ theorem checkInputSection_idempotent {files : Files} {fl : MachineFlags} {kvs ou
   simp only [List.mem_cons, List.mem_nil_iff, or_false] at hkv
   rcases hkv with e | e <;> simp [e]
 
+
+/-- **`check_input_section` accepts exactly the documented forms**: for every file table without a
+    file called `NaN` / `inf` / `-inf`, with the source's `update_conf`, and every `input` dictionary
+    (no key twice): accepted when the documentation's verdict is `accept`, refused when it is `reject`
+    (nothing is claimed where the documentation is silent: a bool given for an integer) -/
+theorem checkInputSection_agrees (files : Files) (hm : MagicFree files) (fl : MachineFlags)
+    (hg : fl.strictMerge = true) (kvs : Dict) (hwf : NodupSection kvs) :
+    C17.Agrees (C17.okOf (checkInputSection files fl inputSchemas [("input", .obj kvs)]))
+      (inputVerdict files (some (.obj kvs))) := by
+  cases hv : inputVerdict files (some (.obj kvs)) with
+  | accept =>
+    obtain ⟨out, h⟩ := accepted_of_documented files hm fl kvs hwf hv
+    simp [C17.Agrees, C17.okOf, h]
+  | reject =>
+    have := refused_of_documented_reject files fl hg kvs hwf hv
+    cases h : checkInputSection files fl inputSchemas [("input", .obj kvs)] with
+    | ok out => exact absurd h (this out)
+    | error e => simp [C17.Agrees, C17.okOf]
+  | undecided => trivial
+
+/-- the source's `update_conf` is the strict one -/
+theorem generated_strictMerge : machineFlags.strictMerge = true := by decide
+
+/-- the other forms `get_config_input` can deliver are refused: no `input` key … -/
+theorem checkInputSection_no_input (files : Files) (fl : MachineFlags) :
+    checkInputSection files fl inputSchemas [] = .error .key := by
+  rw [checkInputSection_eq, Merge.updateConf_nil, generated_input_schemas.2.2.2.2.2.2.2.2]
+  simp [validateInput, subscript, Dict.lookup, dL]
+
+/-- … or an `input` that is not a dictionary -/
+theorem checkInputSection_not_dict (files : Files) (fl : MachineFlags) (v : JVal) (hv : v.isObj = false) :
+    checkInputSection files fl inputSchemas [("input", v)] = .error .type := by
+  rw [checkInputSection_eq, generated_input_schemas.2.2.2.2.2.2.2.2, Merge.updateConf_cons]
+  simp only [Dict.lookup, if_true, Merge.updateVal_leaf _ _ v hv, Dict.setKey, Merge.updateConf_nil]
+  have h := Merge.rewriteLeaf_isObj v
+  rw [hv] at h
+  cases hr : rewriteLeaf v <;> simp [hr, JVal.isObj] at h <;> simp [validateInput, subscript, Dict.lookup]
+
+theorem getConfigInput_forms (user : Dict) :
+    getConfigInput user = [] ∨ ∃ v, getConfigInput user = [("input", v)] := by
+  unfold getConfigInput
+  cases Dict.lookup user "input" with
+  | none => exact Or.inl rfl
+  | some v => exact Or.inr ⟨v, rfl⟩
+
+/-! #### Non-vacuity, and the hypotheses that cannot be dropped -/
+
+def goodUser : Dict :=
+  [("left", .obj [("img", .str "l.tif"), ("disp", .str "grid.tif"), ("nodata", .str "NaN"), ("mask", .null)]),
+   ("right", .obj [("img", .str "r.tif"), ("disp", .str "grid.tif"), ("classif", .str "l.tif")])]
+
+theorem fs_magicFree : MagicFree C17.fs := ⟨by decide, by decide, by decide⟩
+
+theorem goodUser_nodup : NodupSection goodUser := by
+  refine ⟨by decide, ?_⟩
+  intro k S h
+  simp only [goodUser, Dict.lookup] at h
+  split at h
+  · cases h; decide
+  · split at h
+    · cases h; decide
+    · cases h
+
+/-- the hypotheses of `accepted_of_documented` hold of a non-trivial section (grids on both sides,
+    a `"NaN"` to rewrite, defaults to add), and the result is the completed section -/
+example :
+    inputVerdict C17.fs (some (.obj goodUser)) = .accept ∧
+    checkInputSection C17.fs machineFlags inputSchemas [("input", .obj goodUser)] =
+      .ok [("input", .obj [
+        ("left", .obj [("nodata", .float .nan), ("mask", .null), ("classif", .null), ("segm", .null),
+                       ("img", .str "l.tif"), ("disp", .str "grid.tif")]),
+        ("right", .obj [("nodata", .int (-9999)), ("mask", .null), ("classif", .str "l.tif"), ("segm", .null),
+                        ("disp", .str "grid.tif"), ("img", .str "r.tif")])])] := by decide
+
+/-- … and those of `refused_of_documented_reject` of a section with a wrong right disparity -/
+example :
+    let bad : Dict := [("left", .obj [("img", .str "l.tif"), ("disp", .list [.int (-2), .int 2])]),
+                       ("right", .obj [("img", .str "r.tif"), ("disp", .str "grid.tif")])]
+    inputVerdict C17.fs (some (.obj bad)) = .reject ∧
+    C17.okOf (checkInputSection C17.fs machineFlags inputSchemas [("input", .obj bad)]) = false := by decide
+
+/-- **`strictMerge` cannot be dropped** (finding `empty_dict_for_defaulted_key`, repaired in the
+    source): with the former `update_conf` an empty dictionary given for `nodata` is silently replaced
+    by the default and the section — which the documentation rejects — is accepted -/
+theorem empty_dict_counterexample :
+    let user : Dict := [("left", .obj [("img", .str "l.tif"), ("disp", .list [.int (-2), .int 2]), ("nodata", .obj [])]),
+                        ("right", .obj [("img", .str "r.tif")])]
+    inputVerdict C17.fs (some (.obj user)) = .reject ∧
+    C17.okOf (checkInputSection C17.fs { strictMerge := false } inputSchemas [("input", .obj user)]) = true ∧
+    checkInputSection C17.fs { strictMerge := true } inputSchemas [("input", .obj user)] = .error .type := by
+  decide
+
+/-- **`MagicFree` cannot be dropped**: `update_conf` turns the strings `"NaN"`, `"inf"`, `"-inf"` into
+    floats under every key, image paths included; an image file that is really called `NaN` is
+    documented as acceptable (a path rasterio can open) and is refused (the real
+    `check_input_section` raises `CheckerError` on such a file, as the model does) -/
+theorem magic_filename_counterexample :
+    let files : Files := fun p =>
+      if p = "NaN" then some { width := 6, height := 5, count := 1 }
+      else if p = "r.tif" then some { width := 6, height := 5, count := 1 } else none
+    let user : Dict := [("left", .obj [("img", .str "NaN"), ("disp", .list [.int (-2), .int 2])]),
+                        ("right", .obj [("img", .str "r.tif")])]
+    inputVerdict files (some (.obj user)) = .accept ∧
+    checkInputSection files machineFlags inputSchemas [("input", .obj user)] = .error .checker := by
+  decide
+
+/-- where the documentation is silent the code decides either way: `nodata: true` is refused,
+    `disp: [true, 2]` is accepted -/
+example :
+    let u1 : Dict := [("left", .obj [("img", .str "l.tif"), ("disp", .list [.int (-2), .int 2]), ("nodata", .bool true)]),
+                      ("right", .obj [("img", .str "r.tif")])]
+    let u2 : Dict := [("left", .obj [("img", .str "l.tif"), ("disp", .list [.bool true, .int 2])]),
+                      ("right", .obj [("img", .str "r.tif")])]
+    inputVerdict C17.fs (some (.obj u1)) = .undecided ∧
+    C17.okOf (checkInputSection C17.fs machineFlags inputSchemas [("input", .obj u1)]) = false ∧
+    inputVerdict C17.fs (some (.obj u2)) = .undecided ∧
+    C17.okOf (checkInputSection C17.fs machineFlags inputSchemas [("input", .obj u2)]) = true := by decide
+
 end Pandora.C17W
